@@ -237,6 +237,9 @@ def run(prog, chk):
     look_behind(prog, chk, "C16.i", ("Xml.cpp",))
     references_after_escaping(prog, chk, "C16.j")
     lookahead_rewound(prog, chk, "C16.l")
+    from .server_common import block_reads_on_cursor
+    block_reads_on_cursor(prog, chk, "C16.m", "Xml::Private", "Xml.cpp")
+    reference_terminator_window(prog, chk, "C16.n")
     from .. import balance
     balance.check(prog, chk, "C16.k", [f for f in prog.functions.values() if f.file.endswith("Xml.cpp") and (f.cls or "").startswith("Xml::Private")], "Xml::Private")
     chk.rule("C16.h", "MPT: every cursor / line field the tokenizer advances is set again in Private::parse before the first tokenizer call (a Parser is reused across documents)", floor=2)
@@ -547,7 +550,7 @@ def references_after_escaping(prog, chk, rid):
     """The writer produces numeric character references (`&#10;`) for bytes the entity table does not cover.  escapeString turns every
     `&` into `&amp;`: a value may be handed to it only while it holds raw text, and references are put in only afterwards."""
     chk.rule(rid, "ORD (typestate raw -> escaped -> with references): a replace() that introduces `&...;` references is applied only to the "
-                  "result of escapeString, and no escapeString call takes a value after such a replace", floor=1)
+                  "result of escapeString, and no escapeString call takes a value after such a replace", floor=1)      # (the vacuous case counts as one instance)
     n = 0
     for f in [f for f in prog.functions.values() if f.file.endswith("Xml.cpp") and f.blocks]:
         defs = q.local_defs(f)
@@ -582,7 +585,9 @@ def references_after_escaping(prog, chk, rid):
             else:
                 chk.ok(rid, f, "reference %s inserted into the escaped value `%s`" % (bytes(lits[0].get("bytes") or []).decode("latin1"), vn), f.where(c), "reaching definition is escapeString(..), no later escaping", evals=2)
     if not n:
-        raise AnalysisBroken("no replace() introducing a character reference found in Xml.cpp")
+        # whether the writer needs references at all is rule C16.c's business (bytes that break a value in the reader must be escaped):
+        # without any this rule has nothing to order
+        chk.ok(rid, "Xml.cpp", "no replace() introduces a character reference", "", "nothing to order; C16.c decides whether the writer needs one", nontrivial=False)
 
 
 def lookahead_rewound(prog, chk, rid):
@@ -619,3 +624,57 @@ def lookahead_rewound(prog, chk, rid):
                             "the text node" % (f.path_lines(pth)[:8], d["n"]), evals=2)
                 else:
                     chk.ok(rid, f, "text is read from the position saved before the look-ahead", f.where(t), "MPT through `this->pos = %s`" % d["n"], evals=2)
+
+
+def reference_terminator_window(prog, chk, rid):
+    """unescapeString looks for the `;` that ends a reference and falls back to a literal `&` when there is none.  Evaluated over
+    positions of the found `;`: none at all must fall back (the pointer is used otherwise); every position inside the value - up to
+    its very last byte - must be taken as a reference (the writer ends a value with `&quot;` whenever the text ends with a quote)."""
+    chk.rule(rid, "FIN: the guards between `sequenceEnd = find(src, ';')` and its first use, evaluated for sequenceEnd = null and for every "
+                  "offset inside the value: null falls back to a literal `&`, every offset inside the value reaches the translation", floor=1)
+    f = xfn(prog, X + "unescapeString")
+    where = "%s:%s" % (f.file, f.line)
+    finds = []
+    for n in f.nodes:
+        if n["k"] == "DeclStmt":
+            for d in n["decls"]:
+                if d.get("init") is not None and C.loop_blocks(f, n["i"]):
+                    ini = f.nodes[f.strip(d["init"])]
+                    a = q.call_args(f, ini["i"]) if ini["k"] == "CallExpr" and (ini.get("callee") or "").startswith("String::find") else []
+                    if len(a) == 2 and fin.eval_expr(f, a[1], {}) == 59:
+                        finds.append((n["i"], d))
+    ends = [d for n in f.nodes if n["k"] == "DeclStmt" for d in n["decls"] if d.get("init") is not None and re.search(r"\+ ?str\.length\(\)", q.no_casts(f.r(d["init"])))]
+    if not finds or not ends:
+        raise AnalysisBroken("unescapeString: the search for ';' or the end-of-value pointer was not found")
+    dn, d = finds[0]
+    fname, ename = d["n"], ends[0]["n"]
+    cur = q.no_casts(f.r(q.call_args(f, f.strip(d["init"]))[0]))
+    uses = [c for c in q.calls(f) if (f.nodes[c].get("callee") or "").endswith("String::attach") and fname in f.r(c)]
+    lits = [s_.node for s_ in q.stores(f) if s_.rhs is not None and fin.eval_expr(f, s_.rhs, {}) == 38 and "dest" in f.r(s_.lhs)]
+    if not uses or not lits:
+        raise AnalysisBroken("unescapeString: translation (attach) or the literal fall-back store not found")
+    blk = f.node_pos(dn)[0]
+    SRC, END = 1000, 1010
+    bad = None
+    n_ev = 0
+    for x in [0] + list(range(SRC + 1, END)):
+        val = {cur: SRC, ename: END, fname: x}
+        seen, end, fv = fin.walk_vals(f, blk, val, limit=60)
+        n_ev += 1
+        first = next((e for e in seen if e in uses or e in lits), None)
+        # the walk starts at the top of the block: `++src` before the search has been applied to SRC already
+        if first is None:
+            bad = ("x", "for `%s` = %s the guards depend on something else (%s)" % (fname, x, end))
+            break
+        if x == 0 and first in uses:
+            bad = ("null", "when no `;` follows, `%s` is null and is used all the same (`%s`)" % (fname, q.no_casts(f.r(first))[:50]))
+            break
+        if x != 0 and first in lits:
+            bad = ("inside", "a reference whose `;` is byte %d of a %d-byte value is taken for unterminated and copied literally" % (x - SRC, END - SRC))
+            break
+    if bad:
+        chk.bad(rid, f, "reference-terminator-" + bad[0], where,
+                "unescapeString: %s - `v=\"x&gt;\"` (what the writer emits for the text `x>`) parses as the literal text `x&gt;`: writing and "
+                "parsing is no longer the identity" % bad[1], evals=n_ev)
+    else:
+        chk.ok(rid, f, "null falls back, every `;` inside the value ends a reference", where, "%d positions of the found `;` evaluated" % n_ev, evals=n_ev)
